@@ -152,7 +152,7 @@ class Rec:
 
 class Ref:
     def __init__(self, env, prog: dict, main: str, *, address_bits=16, endian='big', origin=0, page_size=1,
-                 zones=None, global_zone=None, data_blocks=(), defined=()):
+                 zones=None, global_zone=None, data_blocks=(), defined=(), predefined=None):
         """zones: {name: (start, end)} predefined (values int | z3 term); global_zone: (start, end) if redefined."""
         self.env = env
         self.prog = prog
@@ -168,7 +168,7 @@ class Ref:
         self.cursor['GLOBAL'] = zv(origin)
         g0 = self.zones['GLOBAL']
         self.origin_outside_global = z3.Or(zv(origin) < g0[0], zv(origin) > g0[1])
-        self.labels = {}
+        self.labels = {k: zv(v) for k, v in (predefined or {}).items()}
         self.recs: list[Rec] = []
         self.mute = 0
         self.defined = set(defined)
